@@ -351,7 +351,7 @@ class Incomplete(list):
     """Leaves of an exploration that was stopped early by on_leaf (no probabilities)."""
 
 
-def explore(fn, delays=None, max_leaves=200000, max_branches=400, prefix=(), max_exp=None, on_leaf=None):
+def explore(fn, delays=None, max_leaves=200000, max_branches=400, prefix=(), max_exp=None, on_leaf=None, deep_is_error=False):
     """Enumerate the complete decision tree of fn under the scripted source.
     Returns the list of leaves (loop-back leaves folded away) with exact
     probabilities in leaf.prob.  Asserts prefix consistency on re-execution."""
@@ -360,7 +360,12 @@ def explore(fn, delays=None, max_leaves=200000, max_branches=400, prefix=(), max
     while True:
         leaf = run_scripted(fn, script, delays=delays, max_branches=max_branches, max_exp=max_exp)
         if leaf.toodeep:
-            raise Unmodelled("decision tree deeper than %d branch points (unfolded loop?)" % max_branches)
+            if not deep_is_error:
+                raise Unmodelled("decision tree deeper than %d branch points (unfolded loop?)" % max_branches)
+            # the caller bounds the number of events (max_exp): a run that keeps drawing without ever
+            # requesting the next waiting time does not terminate within the horizon - an observation about the code
+            leaf.toodeep = False
+            leaf.error = Runaway("more than %d random choices without completing the run within the event horizon" % max_branches)
         # prefix consistency: the part of the script we supplied was consumed as given
         leaves.append(leaf)
         if on_leaf is not None and on_leaf(leaf):
